@@ -25,13 +25,13 @@ _claim("C01", "Completeness is a theorem about the model (C01_completeness, clos
        'Coq proof (completeness of the code-shaped prover against the code-shaped verifier, all sizes) + coordinate-level model/implementation correspondence over a free-module group', "5/C01")
 _claim("C02", 'C02_verifier_equiv (closed under the global context): for ARBITRARY proof elements, statement and weight, the multiscalar product the optimised verifier evaluates (s-vector recurrence, running powers, doubling construction of d and its sum, closed-form geometric sum, batched inverses) equals weight * (right-hand side - left-hand side) of the textbook Bulletproofs+ verification equation written without optimisation (Model/RangeSpec.v), for every bit length, aggregation, round count and extension degree; hence it vanishes iff the textbook verifier accepts; C02_accepted_single_means_textbook_accepts carries this to the top of the executed model (a one-member chunk accepted by verify_chunk under a non-zero weight means the textbook verifier accepts the decoded pair). Every scalar the implementation feeds to its final multiscalar check is compared with the model on honest, mutated and structurally odd proofs. Knowledge soundness of the textbook protocol is trusted, not proved.', _COMMON_NOTE,
        'Coq proof (optimised verifier = textbook verifier for arbitrary proofs, all sizes) + scalar-by-scalar correspondence of the final multiscalar product', "5/C02")
-_claim("C03", "C03_batch_is_weighted_residuals (closed under the global context): for members of any mixture of aggregation factors sharing the owner's generator table (any capacity), arbitrary proofs and weights, the single multiscalar product a batch ends with equals sum_p w_p * textbook residual_p; hence it vanishes when every member satisfies the textbook equation (C03_batch_accepts_if_all_accept), and a member with a non-zero residual survives for at most one value of its weight (C08_bad_weight_unique; the random-oracle step after that is NOT a theorem). Chunking (cover, order, size), shape refusals and result alignment are theorems about the model of the repaired code. Differential runs: batch verdict vs conjunction of singleton verdicts vs model for sizes around every chunk boundary, eight kinds of invalid member at first/last/boundary/random positions, permutations, mixed capacities, per-member contexts.", _COMMON_NOTE,
+_claim("C03", "C03_batch_is_weighted_residuals (closed under the global context): for members of any mixture of aggregation factors sharing the owner's generator table (any capacity), arbitrary proofs and weights, the single multiscalar product a batch ends with equals sum_p w_p * textbook residual_p; hence it vanishes when every member satisfies the textbook equation (C03_batch_accepts_if_all_accept), and a member with a non-zero residual survives for at most one value of its weight (C08_bad_weight_unique; the random-oracle step after that is NOT a theorem). Chunking (cover, order, size), shape refusals and result alignment are theorems about the model of the repaired code. Differential runs: batch verdict vs conjunction of singleton verdicts vs model for sizes around every chunk boundary, eight kinds of invalid member at first/last/boundary/random positions, permutations, mixed capacities, per-member contexts. Deterministic \"only if\" on the executed model: in a chunk whose members are all made by the code-shaped prover except one arbitrary member, acceptance (non-zero weight) means the textbook verifier accepts that member (C03_one_unknown_member_among_honest).", _COMMON_NOTE,
        'Coq proof (batch product = weighted sum of textbook residuals; chunk cover; guards) + relational differential testing of batch vs singletons + model correspondence', "5/C03")
 _claim("C04", "The list of transcript operations of prover and verifier is a Gallina function of statement and proof. Proved: restricted to the operations that determine a challenge, the prover's list (any witness, seed or not) equals the verifier's up to the final challenge (C04_prover_verifier_same_challenge_inputs), one errs on an identity point exactly when the other does, equal logs force equal statement data and proof points (C04_log_injective), every challenge's input extends the previous one. The list is compared operation by operation with the instrumented merlin log, and for every single-datum perturbation (also inside multi-chunk and mixed-aggregation batches) the recorded challenge bytes must differ from that datum on and agree before it. Merlin as a random oracle is trusted.", _COMMON_NOTE,
        'Coq proof (same challenge inputs for prover and verifier; injectivity of the operation list) + log correspondence + pairwise challenge-dependency runs', "5/C04")
 _claim("C05", 'Every position of accepted triples is altered (scalars, points, round structure, tag, commitments, order, promises, bit length, generators, context; also inside multi-chunk and mixed-aggregation batches) and must yield an error; the model predicts the verdict and the scalars. Proved: a changed absorbed component changes the transcript log (C05_absorbed_component_changes_log); an accepted proof with r1, s1 or d1 changed is refused deterministically over linearly independent generators (C05_r1_binding, C05_s1_binding, C05_d1_binding on the textbook equation; C05_altered_r1/s1/d1_refused on the multiscalar product the optimised verifier evaluates, under every non-zero weight; independence a hypothesis); shape mismatches are errors. Rejection after a changed absorbed component is probabilistic (random oracle) and stated as such.', _COMMON_NOTE,
        'Coq proof (deterministic rejections incl. response-scalar binding) + exhaustive position sweep with model correspondence', "5/C05")
-_claim("C06", "The prover's guard is a Gallina predicate proved equivalent to the witness relation for all u64 values and bit lengths (C06_witness_valid_iff, C06_shift_guard_64); on every generated (statement, witness) pair — exactly one violation at each position, cancelling two-position violations, boundary values, degenerate valid openings — it is evaluated inside Coq at the concrete field and compared with prove Ok/Err (chk_guard); every Ok is verified; on the model prove_top (guard + proof computation) emits a proof iff the guard holds (C06_prove_emits_iff_witness_valid) and every emitted proof, with the commitments of the statement itself, passes every guard of verify_chunk and ends with the identity (C06_emitted_proof_verifies); valid cases are compared with the prover model coordinate by coordinate.", _COMMON_NOTE,
+_claim("C06", "The prover's guard is a Gallina predicate proved equivalent to the witness relation for all u64 values and bit lengths (C06_witness_valid_iff, C06_shift_guard_64); on every generated (statement, witness) pair — exactly one violation at each position, cancelling two-position violations, boundary values, degenerate valid openings — it is evaluated inside Coq at the concrete field and compared with prove Ok/Err (chk_guard); every Ok is verified; on the model prove_top (guard + proof computation) emits a proof iff the guard holds (C06_prove_emits_iff_witness_valid) and every emitted proof, with the commitments of the statement itself, passes every guard of verify_chunk and ends with the identity (C06_emitted_proof_verifies); with the prover's own error exits in the model (identity points, zero challenges) whatever prove_full returns verifies, without those premises (C06_whatever_the_prover_returns_verifies); valid cases are compared with the prover model coordinate by coordinate.", _COMMON_NOTE,
        'Coq proof (guard = witness relation) + guard model evaluated against prove Ok/Err on single-violation witnesses', "5/C06")
 _claim("C07", 'Promise handling (a_L offset, transcript absorption with None = 0, H-scalar term, range guard) modelled and compared. Proved: None = Some 0 in the log, a changed promise changes the log, oversized promises are refused, a promise enters the verification equation only through V_j - p_j H (C07_promise_is_commitment_shift, C07_P0_depends_on_shifted_commitments; part of C02_verifier_equiv), and the enforced relation gives promise <= value, value - promise < 2^bits (C01_range_reduction, C02_relation_implies_range). Promise grids at proving time, single substitutions at verification time, mixed-promise batches, guard order (an oversized promise must be refused before any transcript is touched).', _COMMON_NOTE,
        'Coq proof (promise enters only as a commitment shift; None = 0; guard) + differential promise sweeps with model correspondence', "5/C07")
